@@ -187,7 +187,7 @@ func (r *Run) Parallel(fn func(w, n int, l *Local)) {
 
 type knownFinding struct {
 	Property string `json:"property"`
-	Key      string `json:"key"` // exact finding key, or a pattern with * (matches within one /-separated part)
+	Key      string `json:"key"`    // exact finding key, or a pattern with * (matches within one /-separated part)
 	Status   string `json:"status"` // "open" or "fixed"
 	Commit   string `json:"commit,omitempty"`
 	What     string `json:"what"`
@@ -231,6 +231,13 @@ func matchKnown(known map[string]knownFinding, key string) (knownFinding, bool) 
 func (r *Run) Finish() int {
 	t := r.total
 	wall := time.Since(r.Start).Seconds()
+	if os.Getenv("VERIF_KEYS_CHILD") != "" {
+		// whole-run re-execution on behalf of a parent: only the finding keys of this run are wanted
+		for k := range t.viols {
+			fmt.Printf("KEY %s\n", k)
+		}
+		return 0
+	}
 
 	keys := make([]string, 0, len(t.viols))
 	for k := range t.viols {
@@ -274,8 +281,34 @@ func (r *Run) Finish() int {
 		Flaky   bool   `json:"flaky,omitempty"`
 		Known   bool   `json:"known_finding,omitempty"`
 		Anomaly bool   `json:"anomaly,omitempty"`
+		// WholeRun: the finding depends on what earlier cases of the enumeration left behind on the same
+		// instance: its case alone does not show it from a fresh instance, re-running the whole
+		// (deterministic) enumeration in a fresh process does
+		WholeRun bool `json:"reproduced_by_rerunning_the_whole_enumeration,omitempty"`
 	}
 	var recs []vrec
+	var wholeRunKeys map[string]bool
+	wholeRun := func(key string) bool {
+		if wholeRunKeys == nil {
+			wholeRunKeys = map[string]bool{}
+			for try := 0; try < 2; try++ {
+				cmd := exec.Command(self, r.ID, r.Tier)
+				cmd.Env = append(os.Environ(), "VERIF_KEYS_CHILD=1")
+				var out bytes.Buffer
+				cmd.Stdout = &out
+				_ = cmd.Run()
+				for _, l := range strings.Split(out.String(), "\n") {
+					if strings.HasPrefix(l, "KEY ") {
+						wholeRunKeys[strings.TrimPrefix(l, "KEY ")] = true
+					}
+				}
+				if wholeRunKeys[key] {
+					break
+				}
+			}
+		}
+		return wholeRunKeys[key]
+	}
 	exit := 0
 	var lines []string
 	confirmed := 0
@@ -315,13 +348,21 @@ func (r *Run) Finish() int {
 			}
 		}
 		rec := vrec{Key: v.Key, Desc: v.Desc, Replay: path, Repro: repro, Tries: ntries}
+		if repro == 0 && wholeRun(v.Key) {
+			// history-dependent: the artefact becomes "this case, reached by the whole enumeration"
+			rec.WholeRun, repro = true, 1
+			payload, _ := json.MarshalIndent(map[string]interface{}{"property": r.ID, "key": v.Key, "desc": v.Desc, "case": v.Case,
+				"replay_mode": "whole-run", "tier": r.Tier,
+				"note": "the case alone does not show the violation from a fresh instance; it depends on what earlier cases of the enumeration left behind. --replay re-runs the enumeration of this tier and looks for this key."}, "", " ")
+			_ = os.WriteFile(path, payload, 0o644)
+		}
 		switch {
 		case repro == 0:
 			rec.Anomaly = true
 			r.Exhaustive = false
 			lines = append(lines, fmt.Sprintf("ANOMALY property=%s key=%q did not reproduce from %s (harness nondeterminism; not believed)", r.ID, v.Key, path))
 		default:
-			rec.Flaky = repro < ntries && !raceKey
+			rec.Flaky = repro < ntries && !raceKey && !rec.WholeRun
 			if kf, ok := matchKnown(known, v.Key); ok {
 				rec.Known = true
 				lines = append(lines, fmt.Sprintf("KNOWN-FINDING: property=%s %s [key=%s]", r.ID, kf.What, v.Key))
@@ -434,10 +475,26 @@ func Main(args []string) int {
 		}
 		var f struct {
 			Case json.RawMessage `json:"case"`
+			Key  string          `json:"key"`
+			Mode string          `json:"replay_mode"`
+			Tier string          `json:"tier"`
 		}
 		if err := json.Unmarshal(raw, &f); err != nil {
 			fmt.Fprintln(os.Stderr, err)
 			return 2
+		}
+		if f.Mode == "whole-run" {
+			r := NewRun(c.ID, f.Tier)
+			c.Run(r)
+			if v, ok := r.total.viols[f.Key]; ok {
+				fmt.Printf("REPRODUCED property=%s (by re-running the %s enumeration)\n  %s\n", c.ID, f.Tier, v.Desc)
+				if os.Getenv("VERIF_REPLAY_CHILD") == "" {
+					fmt.Printf("VIOLATION property=%s replay=%s\n", c.ID, args[2])
+				}
+				return 1
+			}
+			fmt.Printf("NOT-REPRODUCED property=%s\n", c.ID)
+			return 0
 		}
 		v, desc := c.Replay(f.Case)
 		if v {
